@@ -9,7 +9,7 @@ def run(rep, tier, seed):
     pr = vlib.coq_check('C04'); rep.add_proof(pr)
     if not pr['ok']:
         rep.violation({'kind': 'proof-broken', 'log': pr['log'][-3000:], 'forbidden': pr['forbidden']}, suffix='no-failing-input-found')
-    nh, nops, mp = (6, 16, 90) if tier == 'quick' else (100, 40, 100000)
+    nh, nops, mp = (6, 16, 90) if tier == 'quick' else (64, 40, 100000)
     k3check.run_crash(rep, 'C04', tier, seed, ['written', 'torn'], nh, nops, mp, OPTS, big=True, known_sig=known_sig)
     rep.cov['rule'] = ('batches of 1..3000 updates (spanning >= 3 log blocks) with a marker key each; crash images (byte-exact and torn) at '
                        'sampled syscall boundaries incl. between the fragments of one batch; recovered contents must equal the in-order '
